@@ -86,6 +86,7 @@ package py
 //@ ghost opid int local
 //@ ghost opcall object local
 //@ ghost opat int local
+//@ ghost opcnt int local
 
 //@ func (*Code).Addr2Line(co, addrq) (line)
 //@   trusted
@@ -234,3 +235,14 @@ package py
 //@   ensures cached: old(loaded(ctx, name)) ==> err == nil && is(r, *Module) && r.(*Module) == old(modof(ctx, name)) && opat[0] == 0
 //@   ensures once: opat[0] <= 1
 //@   ensures how: err == nil && !old(loaded(ctx, name)) ==> opat[46] == 1 || opat[47] == 1
+
+// ---- entry points used by the REPL (C20) ----
+
+//@ iface Context.RunCode(self, code, globals, locals, closure) (r, err)
+//@   traced 45
+//@   modifies *
+
+//@ func Compile(src, srcDesc, mode, flags, dont_inherit) (code, err)
+//@   trusted
+//@   modifies *
+//@   ensures one: (code == nil) != (err == nil)
